@@ -1,10 +1,13 @@
 # C04 — untrusted layer bytes: errors, never a crash or a hang
 PROPS["C04"] = dict(
     props_file="Properties/C04.v",
-    harnesses=[dict(cmd="hostile", mod="root", model="Model.Hostile", quick=130, thorough=40000, shard=215, coq_jobs=8,
-                    require=["kind.footer", "kind.open", "kind.tree", "kind.read", "class.ok", "class.error",
+    harnesses=[dict(cmd="hostile", mod="root", model="Model.Hostile", quick=130, thorough=40000, shard=250, coq_jobs=8,
+                    require=["kind.footer", "kind.open", "kind.tree", "kind.read", "kind.chunk", "class.ok", "class.error",
                              "footer.ok", "footer.error", "open.ok", "open.error",
-                             "tree.ok", "tree.error", "tree.walked", "tree.hardlink", "tree.shared-directory", "read.ok", "read.error"])],
+                             "tree.ok", "tree.error", "tree.walked", "tree.hardlink", "tree.shared-directory", "read.ok", "read.error"]),
+               dict(cmd="hostiledb", mod="cmdmod", model="Model.HostileDb", quick=60, thorough=20000, shard=125, coq_jobs=8,
+                    require=["kind.dbopen", "kind.dbtree", "kind.dbchunk", "dbopen.ok", "dbopen.error", "dbtree.ok", "dbtree.error",
+                             "dbtree.walked", "dbtree.shared-directory"])],
     rule="every run: hand-written corpus (one input per defect) + a deterministic sweep of ~1550 footer inputs: for each gzip-based footer variant, extra-field bodies of EVERY length 0..40 that end with the magic (hex / non-hex filler), start with it, are a cut prefix/suffix of it, raw and wrapped in an SI1/SI2/LEN header with LEN = expected / real / larger / smaller, wrong SI bytes, byte-swapped LEN, shifted or additional subfields, boundary hex values - each in a valid gzip member padded/cut to the exact footer size, through ParseFooter and (subset) through estargz.Open at the end of a blob; zstd:chunked frame footers of every length 24..56 with the magic in place / at the end / cut / absent and boundary frame numbers, also through Open with a TOC-offset hint shorter than the footer. Then -n random cases (quick 130, thorough 40000) from 4 streams: footer byte strings of all lengths "
          "0..footer size+12 for the 4 footer variants (valid, truncated, crafted extra field lengths/claimed lengths, flag/magic flips, int64-boundary numbers); "
          "blobs (garbage/valid TOC + hostile footer, TOC offsets inside/at/beyond/negative, TOC-offset annotation) through estargz.Open with and "
